@@ -393,8 +393,12 @@ InvUnion         == IsPair => ((~HasNoAnn(A_) /\ ~HasNoAnn(B_)) =>
 InvCovariant     == IsPair => /\ LawCovariant(A_, B_, Strict) /\ LawArity(A_, B_, Strict)
                               /\ LenientToo => (LawCovariant(A_, B_, Lenient) /\ LawArity(A_, B_, Lenient))
 InvTransitive    == IsPair => LawTransitive(A_, B_, Universe)
-InvMetadata      == IsPair => /\ LawMetadataSilent(A_, B_, Strict) /\ LawMetadataKind(A_, B_, Strict)
-                              /\ LenientToo => (LawMetadataSilent(A_, B_, Lenient) /\ LawMetadataKind(A_, B_, Lenient))
+(* metadata is silent: for every pair (whose annotations hold every kind of metadata, DMeta); an Annotated of     *)
+(* every kind wrapped around either side: for the pairs of un-nested annotations (quick) / all pairs (thorough)   *)
+InvMetadata      == IsPair => /\ LawMetadataSilent(A_, B_, Strict)
+                              /\ LenientToo => LawMetadataSilent(A_, B_, Lenient)
+                              /\ (Tier = "thorough" \/ (A_ \in D0 /\ B_ \in D0)) =>
+                                     (LawMetadataKind(A_, B_, Strict) /\ LawMetadataKind(A_, B_, Lenient))
 
 (* laws of the pipeline rule, per pipeline *)
 IsPipe == Part = "pipes" /\ case.shape # "row"
